@@ -21,6 +21,10 @@ SPEC = dict(
         "SymVerif.C10.judge_absent_zero",
         "SymVerif.C10.certificate_sound",
         "SymVerif.C10.ex_judge_ok",
+        "SymVerif.C10.evalK_evalR",
+        "SymVerif.C10.equiv_real",
+        "SymVerif.C10.certificate_real",
+        "SymVerif.C10.library_result_is_derivative",
         "SymVerif.NF.equiv_sound",
     ],
     rule="one call diff(e, x, cache) per op line; e = random real expression built through the public API and dumped "
